@@ -1,6 +1,10 @@
 //! fv — runtime-monitoring harness for the feos properties C01..C20.
 //! usage: fv <ID> [--tier quick|thorough] [--seed N] [--case N] [--replay file]
 mod c01;
+mod c02;
+mod c08;
+mod c10;
+mod c13;
 mod fd;
 mod monitor;
 mod prng;
@@ -73,6 +77,10 @@ fn main() {
     };
     let code = match id.as_str() {
         "C01" => c01::run(mk("C01")),
+        "C02" => c02::run(mk("C02")),
+        "C08" => c08::run(mk("C08")),
+        "C10" => c10::run(mk("C10")),
+        "C13" => c13::run(mk("C13")),
         _ => {
             eprintln!("unknown property {id}");
             2
